@@ -115,6 +115,11 @@ pub fn run(ctx: &Ctx) -> ! {
         v.into_iter().collect()
     };
     let lists_checked = AtomicU64::new(0);
+    cfg.extra.push(("two-edge structures + one deviation of any kind", {
+        let mut x = corpus::structures_any_cfg(&uni);
+        x.only_datasets = Some(vec!["diamond", "counts0123"]);
+        x
+    }));
     let stats = corpus::drive(
         ctx,
         &uni,
